@@ -106,6 +106,14 @@ def evaluate(prop, cases, workdir, tag):
         c.setdefault("want_text", False)
         if getattr(prop, "VALIDATE_MIX", False) and i % 3 == 1 and "validate" not in c["opts"]:
             c["opts"]["validate"] = True      # every third case goes through naga's validator as well (it must only gate)
+    # extractor validation: for a sample of the cases the token stream of the returned text is dumped as well and Coq
+    # requires canon(render(EXTRACTED out)) = canon(tokens): the driver's extractor is then not trusted on these cases -
+    # Model/Render.v alone defines how an `out` value reads as text (C01 compares every case's text with the model anyway)
+    k_ext = getattr(prop, "EXTRACT_CHECK", 24)
+    if k_ext and "Agree" in prop.REQUIRES and not getattr(prop, "WANT_TOKS", False) and "search" not in tag:
+        for c in cases[:: max(1, len(cases) // k_ext)][:k_ext]:
+            c["want_toks"] = True
+            c["extract_check"] = True
     try:
         plain = [{k: c[k] for k in ("id", "wgsl", "include", "opts", "want_text", "want_toks", "want_rest", "want_lit") if k in c} for c in cases]
         envi = [i for i, c in enumerate(cases) if c.get("env") == "build_script"]
@@ -167,6 +175,10 @@ def evaluate(prop, cases, workdir, tag):
         except Exception as ex:          # observations of an unexpected shape: report as a broken correspondence, do not crash
             rec["skip"] = "extract_error: harness could not interpret the observations of this case: %r" % (ex,)
             continue
+        if c.get("extract_check"):
+            expr = ("match (%s) with w_ :: a_ :: rest_ => w_ :: (a_ && tokens_agree real_%d toks_%d) :: rest_ | l_ => l_ end"
+                    % (expr, c["id"], c["id"]))
+            rec["extract_checked"] = True
         if c["opts"].get("validate") and getattr(prop, "VALIDATE_MIX", False):
             # validation only gates: the model behind a validated call is the same generator behind the validator's verdict
             expr = expr.replace("(gen ir_%d " % c["id"], "(genv true %s ir_%d " % ("false" if r.get("valid") is False else "true", c["id"]))
@@ -447,6 +459,7 @@ def main(prop_name, tier, seed, replay=None):
         "feature_histogram": feats,
         "repo_src_hash": repo_src_hash(),
         "known_findings_reported": sorted(reported_known),
+        "extractor_validated_in_coq": sum(1 for r in recs if r.get("extract_checked") and r["verdict"] is not None),
     }
     if tables_info is not None:
         cov["leaf_tables"] = tables_info
